@@ -222,6 +222,13 @@ impl Decoder for FrameDecoder {
     type Error = Error;
 
     fn decode(&mut self, src: &mut BytesMut) -> Result<Option<Self::Item>, Self::Error> {
+        // The rest of the 8-byte frame header (doff, type, channel) must be present
+        if src.len() < 4 {
+            return Err(Error::DecodeError(
+                "Frame is shorter than the frame header".to_string(),
+            ));
+        }
+
         let doff = src.get_u8();
         let ftype = src.get_u8();
         let channel = src.get_u16();
